@@ -174,3 +174,5 @@ Definition run_managers (x : sx) : sx :=
       end
   | _ => sx_err
   end.
+
+(* DISPATCH: 101 => run_managers *)
